@@ -20,6 +20,7 @@ structure InstrFacts (p : Prog) (bs : List Nat) (pc : Nat) (w : Word) (o : Op) :
   next : o = .stop ∨ pc + o.size ∈ bs
 
 structure WF (p : Prog) (bs : List Nat) : Prop where
+  bnd : p.boundaries = some bs
   instr : ∀ pc ∈ bs, ∃ w o, InstrFacts p bs pc w o
   zero : 0 ∈ bs
   root : ∃ w, fetch p 0 = .ok w ∧ Op.ofNat? w.op = some .lazybranch
@@ -49,10 +50,10 @@ theorem wf_spec {p : Prog} (h : p.wf = true) : ∃ bs, WF p bs := by
   unfold Prog.wf at h
   split at h
   · simp at h
-  · next bs _ =>
+  · next bs hbs =>
     simp only [Bool.and_eq_true, List.all_eq_true, List.contains_iff_mem] at h
     obtain ⟨⟨⟨⟨hall, h0⟩, hroot⟩, htgt⟩, _⟩ := h
-    refine ⟨bs, fun pc hpc => instrOk_spec (hall pc hpc), h0, isOpAt_spec hroot, ?_⟩
+    refine ⟨bs, hbs, fun pc hpc => instrOk_spec (hall pc hpc), h0, isOpAt_spec hroot, ?_⟩
     split at htgt
     · next t ht =>
       simp only [Bool.and_eq_true, decide_eq_true_eq] at htgt
